@@ -445,3 +445,55 @@ impl<'a> VTokenLexer<'a> {
         self.0.next().map(|t| (t.kind, t.verif_pos()))
     }
 }
+
+// ---------------------------------------------------------------------------
+// variable environment (scopes + lookup cache)
+// ---------------------------------------------------------------------------
+
+/// The evaluator's `Environment` (scope stack with the `last_variable_index` cache), no modules loaded.
+pub struct VEnv(crate::evaluate::Environment);
+
+impl VEnv {
+    pub fn new() -> Self {
+        VEnv(crate::evaluate::Environment::new())
+    }
+
+    pub fn new_closure(&self) -> Self {
+        VEnv(self.0.new_closure())
+    }
+
+    pub fn depth(&self) -> usize {
+        self.0.scopes.len()
+    }
+
+    pub fn enter_new_scope(&mut self) {
+        self.0.scopes_mut().enter_new_scope();
+    }
+
+    pub fn exit_scope(&mut self) {
+        self.0.scopes_mut().exit_scope();
+    }
+
+    /// `$name: value` (with `!global` when `is_global`)
+    pub fn insert_var(&mut self, name: Identifier, value: Value, is_global: bool, in_semi_global_scope: bool, span: Span) -> bool {
+        let r = self.0.insert_var(codemap::Spanned { node: name, span }, None, value, is_global, in_semi_global_scope);
+        err_span(r).is_ok()
+    }
+
+    /// loop variables / arguments: always the innermost scope
+    pub fn insert_var_last(&mut self, name: Identifier, value: Value) {
+        self.0.scopes_mut().insert_var_last(name, value);
+    }
+
+    pub fn get_var(&mut self, name: Identifier, span: Span) -> Option<Value> {
+        err_span(self.0.get_var(codemap::Spanned { node: name, span }, None)).ok()
+    }
+
+    pub fn var_exists(&self, name: Identifier) -> bool {
+        self.0.scopes.var_exists(name)
+    }
+
+    pub fn global_var_exists(&self, name: Identifier) -> bool {
+        self.0.scopes.global_var_exists(name)
+    }
+}
